@@ -57,6 +57,9 @@ Section Ref.
      depends on the history, see C12_optional_union_refuted) *)
   Definition no_crash : Prop := forall j sj, nth_error sites j = Some sj -> crash_on_refill sj = false.
 
+  Lemma no_crash_always : no_crash.
+  Proof. intros j sj _. reflexivity. Qed.
+
   Lemma carriers_unique cl s t c : wf cl -> site_ok s (length cl) = true -> tag_unique cl s t ->
     carries cl s c t -> carriers cl s t = [c].
   Proof.
